@@ -1,4 +1,5 @@
 import Gimli.Lemmas.LineSeq
+import Gimli.Lemmas.LineHeader
 /-!
 # C04 — Line-number rows equal the DWARF state machine; sequences are consistent
 
@@ -285,5 +286,24 @@ theorem decode_total (h : Params) (input : Bytes) :
 /-- `sequences()` returns the list or an error on every input (never panics, always terminates) -/
 theorem sequences_total (h : Params) (bs : Bytes) : (sequences h bs).Normal :=
   seqLoop_normal h _ _ bs bs none [] (by omega)
+
+/-! ## the header -/
+
+/-- **Accepted headers are valid**: whatever `LineProgramHeader::parse` accepts (versions 2–5,
+either format, any bytes) has min_inst_len, max_ops, line_range, opcode_base in 1..255, line_base
+in −128..127, version in 2..5, `standard_opcode_lengths` of length opcode_base − 1, max_ops = 1
+before version 4, and a supported address size (its own for version 5, the caller's before). So
+the hypothesis `h.Valid` of the theorems above is exactly "the header was parsed". -/
+theorem header_valid (e : Endian) (asz : Nat) (cd cn : Option Bytes) (input : Bytes) (hd : Header)
+    (hasz : asz = 1 ∨ asz = 2 ∨ asz = 4 ∨ asz = 8)
+    (hp : parseHeader e asz cd cn input = .ok hd) : hd.p.Valid :=
+  (parseHeader_valid e asz cd cn input hd hasz hp).1
+
+/-- `DebugLine::program` / `LineProgramHeader::parse` return a header or an error on every input
+(versions 2–5 incl. the v5 entry-format tables): no panic — the two `path_name.unwrap()` are safe
+because a format without exactly one `DW_LNCT_path` is rejected — and no non-termination. -/
+theorem header_total (e : Endian) (sec : Bytes) (off asz : Nat) (cd cn : Option Bytes) :
+    (program e sec off asz cd cn).Normal :=
+  program_normal e sec off asz cd cn
 
 end Gimli.Props.C04
